@@ -761,3 +761,241 @@ impl Campaign for FirstEmitRace {
         }
     }
 }
+
+// ---------------------------------------------------------------------------
+// C10 / C11: producers keep emitting while the wrapped sink panics (and fails)
+// in a repeating pattern, i.e. while worker threads unwind and are replaced.
+// The queue always has room for every attempt, so every emit must return Ok.
+
+#[derive(Serialize, Deserialize, Clone, Debug)]
+pub struct PanicStormCase {
+    /// None = unbounded; Some(extra) = bounded with capacity attempts + extra (never full)
+    pub spare: Option<u8>,
+    pub producers: u8,
+    pub per_producer: u16,
+    /// outcome of metric #seq is cycle[seq % len]
+    pub cycle: Vec<StepOut>,
+    pub yields: u64,
+}
+
+pub struct PanicStorm {
+    pub name: &'static str,
+    pub focus: QRule,
+}
+
+impl Campaign for PanicStorm {
+    type Case = PanicStormCase;
+    fn name(&self) -> &'static str {
+        self.name
+    }
+    fn max_shrink_iters(&self) -> u32 {
+        30
+    }
+    fn strategy(&self, _tier: Tier) -> BoxedStrategy<PanicStormCase> {
+        let out = prop_oneof![4 => Just(StepOut::Panic), 2 => Just(StepOut::Ok), 1 => (0u8..13).prop_map(StepOut::Err), 1 => Just(StepOut::OkZero)];
+        (
+            prop::option::weighted(0.4, 0u8..4),
+            1u8..=6,
+            50u16..1500,
+            prop_oneof![2 => Just(vec![StepOut::Panic]), 5 => prop::collection::vec(out, 1..6)],
+            any::<u64>(),
+        )
+            .prop_map(|(spare, producers, per_producer, cycle, yields)| PanicStormCase {
+                spare,
+                producers,
+                per_producer,
+                cycle,
+                yields,
+            })
+            .boxed()
+    }
+    fn check(&self, case: &PanicStormCase, ctx: &Ctx) -> Outcome {
+        let w = ctx.w();
+        let gate = Gate::new();
+        gate.set_open_cycle(Some(case.cycle.clone()));
+        let attempts = case.producers as usize * case.per_producer as usize;
+        let g2 = gate.clone();
+        let q = match util::catch(|| match case.spare {
+            None => QueuingMetricSink::from(GatedSink { gate: g2 }),
+            Some(x) => QueuingMetricSink::with_capacity(GatedSink { gate: g2 }, attempts + x as usize),
+        }) {
+            Ok(q) => q,
+            Err(p) => {
+                return Outcome {
+                    verdict: Err(format!("constructor panicked: {}", p)),
+                    nontrivial: false,
+                    fingerprint: 0,
+                    classes: vec![],
+                }
+            }
+        };
+        let mut findings: Vec<(QRule, String)> = Vec::new();
+        let start = Arc::new(std::sync::Barrier::new(case.producers as usize));
+        let mut joins = Vec::new();
+        for p in 0..case.producers as usize {
+            let h = q.clone();
+            let start = start.clone();
+            let n = case.per_producer as usize;
+            let pattern = util::mix(case.yields, p as u64 + 1);
+            let gate = gate.clone();
+            joins.push(thread::spawn(move || {
+                gate.register_producer(thread::current().id());
+                let _ = util::catch(|| ());
+                start.wait();
+                let mut acked: Vec<String> = Vec::new();
+                let mut bad: Vec<String> = Vec::new();
+                for i in 0..n {
+                    let m = format!("p{}s{}:1|c", p, i);
+                    let t0 = Instant::now();
+                    let r = util::catch(|| h.emit(&m));
+                    if t0.elapsed() > w && bad.len() < 3 {
+                        bad.push(format!("emit('{}') took {:?} while the wrapped sink was panicking", m, t0.elapsed()));
+                    }
+                    match r {
+                        Ok(Ok(len)) => {
+                            if len != m.len() && bad.len() < 3 {
+                                bad.push(format!("emit('{}') returned Ok({})", m, len));
+                            }
+                            acked.push(m);
+                        }
+                        Ok(Err(e)) => {
+                            if bad.len() < 3 {
+                                bad.push(format!(
+                                    "emit('{}') returned Err({:?}: {}) although the queue has room for every attempt: the wrapped sink's panics/errors surfaced in an emit result",
+                                    m,
+                                    e.kind(),
+                                    e
+                                ));
+                            }
+                        }
+                        Err(pm) => {
+                            bad.push(format!("emit panicked in a producer: {}", pm));
+                            break;
+                        }
+                    }
+                    if (pattern >> (i % 64)) & 1 == 1 {
+                        thread::yield_now();
+                    }
+                }
+                drop(h);
+                (acked, bad)
+            }));
+        }
+        let mut acked: Vec<Vec<String>> = Vec::new();
+        for j in joins {
+            match j.join() {
+                Ok((a, b)) => {
+                    for m in b {
+                        let rule = if m.contains("panicked in a producer") { QRule::Panic } else { QRule::Isolation };
+                        findings.push((rule, m));
+                    }
+                    acked.push(a);
+                }
+                Err(_) => findings.push((QRule::Panic, "a producer thread died: a panic of the wrapped sink unwound into a caller thread".into())),
+            }
+        }
+        let accepted: usize = acked.iter().map(|a| a.len()).sum();
+        // everything accepted is handed over exactly once, per producer in order; panics counted
+        // the backlog is proportional to the number of emits (every panic replaces the worker
+        // thread): wait as long as the hand-overs make progress, W without progress fails
+        let mut seen = gate.lock().exited;
+        let drained_all = loop {
+            if seen >= accepted {
+                break true;
+            }
+            let from = seen;
+            if !gate.wait_until(w, |g| g.exited > from) {
+                break false;
+            }
+            seen = gate.lock().exited;
+        };
+        if !drained_all {
+            let got = gate.lock().exited;
+            let m = format!(
+                "{} emits returned Ok but only {} metrics reached the wrapped sink and no further one within {:?} (outcome cycle {:?})",
+                accepted, got, w, case.cycle
+            );
+            findings.push((QRule::Deliver, m.clone()));
+            findings.push((QRule::Panics, m));
+        } else {
+            let (per, expected_panics) = {
+                let g = gate.lock();
+                let mut per: Vec<Vec<String>> = vec![Vec::new(); case.producers as usize];
+                let mut on_producer = false;
+                for e in g.log.iter() {
+                    if let Ev::Enter { metric, on_producer: op, .. } = e {
+                        on_producer |= *op;
+                        if let Some(p) = metric.strip_prefix('p').and_then(|r| r.split_once('s')).and_then(|(p, _)| p.parse::<usize>().ok()) {
+                            if p < per.len() {
+                                per[p].push(metric.clone());
+                            }
+                        }
+                    }
+                }
+                if on_producer {
+                    findings.push((QRule::Isolation, "the wrapped sink was run on a producer thread".into()));
+                }
+                let ep = g.log.iter().filter(|e| matches!(e, Ev::Exit { outcome: StepOut::Panic, .. })).count() as u64;
+                (per, ep)
+            };
+            for (p, a) in acked.iter().enumerate() {
+                if per[p] != *a {
+                    let m = format!(
+                        "producer {}: {} emits acknowledged but the wrapped sink was handed {} of its metrics (only a panicking metric may be consumed; cycle {:?})",
+                        p,
+                        a.len(),
+                        per[p].len(),
+                        case.cycle
+                    );
+                    findings.push((QRule::Panics, m.clone()));
+                    findings.push((QRule::Deliver, m));
+                    break;
+                }
+            }
+            let deadline = Instant::now() + w;
+            let mut pc = q.panics();
+            while pc < expected_panics && Instant::now() < deadline {
+                thread::sleep(Duration::from_micros(200));
+                pc = q.panics();
+            }
+            if pc != expected_panics {
+                findings.push((QRule::Panics, format!("panics() = {} but the wrapped sink panicked {} times", pc, expected_panics)));
+            }
+            let (s, d, qd) = (q.submitted(), q.drained(), q.queued());
+            if s != accepted as u64 || d != accepted as u64 || qd != 0 {
+                findings.push((
+                    QRule::Counters,
+                    format!("after the drain: submitted={} drained={} queued={} but {} emits returned Ok", s, d, qd, accepted),
+                ));
+            }
+        }
+        drop(q);
+        if findings.is_empty() && !gate.wait_until(w, |g| g.released) {
+            findings.push((
+                QRule::Shutdown,
+                "[sig=last-drop/wrapped-sink-not-released] all handles dropped after a run of wrapped-sink panics, wrapped sink not released".into(),
+            ));
+        }
+        gate.set_open(Some(StepOut::Ok));
+        let verdict = match findings
+            .iter()
+            .find(|f| (f.0 == self.focus || f.0 == QRule::Panic) && !crate::known::absorb(ctx.property, &f.1))
+        {
+            None => Ok(()),
+            Some(f) => Err(f.1.clone()),
+        };
+        let panics_in_cycle = case.cycle.iter().filter(|o| **o == StepOut::Panic).count();
+        Outcome {
+            verdict,
+            nontrivial: panics_in_cycle > 0 && case.producers >= 2,
+            fingerprint: util::hash_json(case),
+            classes: vec![if panics_in_cycle == case.cycle.len() {
+                "every metric panics in the wrapped sink while producers emit"
+            } else if panics_in_cycle > 0 {
+                "panics mixed with ok/err while producers emit"
+            } else {
+                "no panic in the cycle"
+            }],
+        }
+    }
+}
